@@ -122,10 +122,24 @@ def gen_par_program(rng):
     elif pos < 0.82:
         # par loop inside a seq loop over another dimension
         lines = ["for r2 in seq(0, m):"] + ["    " + l for l in lines]
-    else:
+    elif pos < 0.90:
         # a second statement before/after
         need |= {"x", "y"}
         lines = ["for i in seq(0, n):", "    y[i] = x[i]"] + lines
+    elif pos < 0.95:
+        # an `if` without par loop precedes the par loop in the same block
+        need |= {"y"}
+        lines = ["if n > 3:", "    y[0] = 0.0"] + lines
+        if rng.random() < 0.5:
+            lines = ["for rep in seq(0, 2):"] + ["    " + l for l in lines]
+    else:
+        # the par loop lives in a sub-procedure; the caller is sequential
+        names = [k for k in ["x", "y", "A", "B", "C", "s"] if k in need]
+        sub_args = ["n: size", "m: size"] + [DECL[k] for k in names]
+        sub = "@proc\ndef par_sub(" + ", ".join(sub_args) + "):\n" + "".join("    " + l + "\n" for l in lines)
+        call = "par_sub(n, m, " + ", ".join(names) + ")"
+        body = [call] if rng.random() < 0.5 else ["for rep in seq(0, 2):", "    " + call]
+        return sub + "\n\n@proc\ndef p(" + ", ".join(sub_args) + "):\n" + "".join("    " + l + "\n" for l in body)
     args = ["n: size", "m: size"] + [DECL[k] for k in ["x", "y", "A", "B", "C", "s"] if k in need]
     src = "@proc\ndef p(" + ", ".join(args) + "):\n" + "".join("    " + l + "\n" for l in lines)
     return src
